@@ -3,7 +3,7 @@
    independently of Model.v (minibuffer.h + CPython's slice protocol). *)
 From Coq Require Import ZArith List Bool.
 Import ListNotations.
-From Cffi Require Import C19.Model C19.Spec C19.Proofs.
+From Cffi Require Import C19.Types C19.Gen C19.Model C19.Spec C19.Proofs.
 Open Scope Z_scope.
 
 (* Scope of the specification (recorded reading, DESIGN.md Appendix B): C19/Spec.v is the semantics of
@@ -54,6 +54,36 @@ Theorem C19_from_buffer_open_array : forall isz buflen, 0 < isz -> 0 <= buflen -
   from_buffer_length (FOpenArray isz) false true buflen = Ok (buflen / isz).
 Proof. exact from_buffer_open_array. Qed.
 Print Assumptions C19_from_buffer_open_array.
+
+(* The open-array branch as it is in the source: its fast-path test is regenerated from
+   direct_from_buffer into C19/Gen.v on every run.  Obligation: over every item type the backend can
+   build (all primitive kinds incl. wchar_t/char16_t/char32_t, _Bool, enums, floats, long double,
+   complex, pointers; structs/unions/arrays of sizes 0..64) the fast path is taken only when the item
+   size is 1 — so the code gives len(obj) // sizeof(T) items for every item type (ZeroDivisionError for
+   size 0) and agrees with the size-only model above. *)
+Theorem C19_from_buffer_fast_path_only_size1 : fast_only_size1 gen_from_buffer_fast = true.
+Proof. exact gen_fast_only_size1. Qed.
+Print Assumptions C19_from_buffer_fast_path_only_size1.
+
+Theorem C19_from_buffer_code_is_len_div_size : forall c it buflen,
+  fast_only_size1 c = true -> In it all_items -> 0 <= buflen ->
+  from_buffer_open_code c it buflen =
+  if 0 <? it_size it then Ok (buflen / it_size it) else Err ZeroDivisionError.
+Proof. exact from_buffer_code_is_len_div_size. Qed.
+Print Assumptions C19_from_buffer_code_is_len_div_size.
+
+Theorem C19_from_buffer_code_matches_model : forall it buflen,
+  In it all_items -> 0 < it_size it -> 0 <= buflen ->
+  from_buffer_open_code gen_from_buffer_fast it buflen
+  = from_buffer_length (FOpenArray (it_size it)) false true buflen.
+Proof. exact from_buffer_code_matches_model. Qed.
+Print Assumptions C19_from_buffer_code_matches_model.
+
+(* testing the character flag instead would give char32_t[] four times too many items *)
+Theorem C19_char_flag_fast_path_refuted : fast_only_size1 (CAtom (AFlag F_CHAR)) = false /\
+  from_buffer_open_code (CAtom (AFlag F_CHAR)) (mk_item 4 [F_CHAR]) 16 = Ok 16.
+Proof. exact char_flag_fast_path_refuted. Qed.
+Print Assumptions C19_char_flag_fast_path_refuted.
 
 Theorem C19_from_buffer_fixed_array : forall len isz buflen,
   from_buffer_length (FFixedArray len isz) false true buflen =
